@@ -1,5 +1,5 @@
 (* C03 — a record's payload decodes to exactly its messages, in order. *)
-From TlsModel Require Import Bytes Nom Values Handshake Record ManyLemmas Wire Strip RecordSpec RecordProofs MessageProofs.
+From TlsModel Require Import Bytes Nom Values Handshake Record ManyLemmas Wire Strip RecordSpec RecordProofs MessageProofs HandshakeProofs.
 
 (* the record content dispatch read from the source on this run is the expected one
    (20 CCS, 21 alert, 22 handshake: many1(complete(..)); 23: the blob once; 24: complete(heartbeat)) *)
@@ -30,6 +30,16 @@ Theorem C03_decode_handshake : forall hdr wf, h_type hdr = 22 ->
   exists vs', run (parse_tls_record_with_header hdr) (mkS o (cat enc_msg (m :: ms) ++ tail)) =
                 Ok (mkS (o + lenN (cat enc_msg (m :: ms))) tail) vs' /\ msgs_eqv vs' (m :: ms).
 Proof. exact (decode_handshake C03_dispatch). Qed.
+(* instantiated with C04's round-trip: every list of well-formed handshake values of the 17 variants *)
+Theorem C03_decode_handshake_all : forall (Ht : hs_tables_std = true) hdr, h_type hdr = 22 ->
+  forall m ms o tail,
+  (forall x, In x (m :: ms) -> wf_hs_msg Ht x) ->
+  stops parse_tls_message_handshake (mkS (o + lenN (cat enc_msg (m :: ms))) tail) ->
+  exists vs', run (parse_tls_record_with_header hdr) (mkS o (cat enc_msg (m :: ms) ++ tail)) =
+                Ok (mkS (o + lenN (cat enc_msg (m :: ms))) tail) vs' /\ msgs_eqv vs' (m :: ms).
+Proof.
+  intros Ht hdr H. exact (C03_decode_handshake hdr (wf_hs_msg Ht) H (handshake_msgs_rt Ht) (handshake_msgs_ne Ht)).
+Qed.
 Theorem C03_decode_appdata : forall hdr, h_type hdr = 23 -> forall blob o,
   run (parse_tls_record_with_header hdr) (mkS o blob) =
     Ok (mkS (o + lenN blob) []) [MApplicationData (mkS o blob)].
@@ -66,6 +76,7 @@ Print Assumptions C03_dispatch.
 Print Assumptions C03_decode_ccs.
 Print Assumptions C03_decode_alert.
 Print Assumptions C03_decode_handshake.
+Print Assumptions C03_decode_handshake_all.
 Print Assumptions C03_decode_appdata.
 Print Assumptions C03_decode_heartbeat.
 Print Assumptions C03_one_step_two_step.
